@@ -776,6 +776,109 @@ func runC08(c *Ctx) {
 		}
 	}
 	rec.Extra("cross_process_digest", want)
+	// ---- an object signed, edited and signed again: what is emitted is what the LAST signing call signed ----
+	for i := 0; i < c.N(300, 6000); i++ {
+		r := mon.NewRand(uint64(c.Seed)).Sub(uint64(127000 + i))
+		kind := []string{"Sign1Message", "UntaggedSign1Message", "Signature", "Countersignature", "SignMessage"}[i%5]
+		alg := cose.AlgorithmES256
+		prot, iv := c08header(r, true, false)
+		unprot, _ := c08header(r, false, iv != 0)
+		prot[int64(1)] = alg
+		for k := range prot { // one spelling of label 1 only
+			if nl, ok := refNorm(k); ok && nl == int64(1) && k != any(int64(1)) {
+				delete(prot, k)
+			}
+		}
+		h := cose.Headers{Protected: cose.ProtectedHeader(prot), Unprotected: cose.UnprotectedHeader(unprot)}
+		parent := &cose.Sign1Message{Headers: cose.Headers{Protected: cose.ProtectedHeader{int64(1): alg}}, Payload: []byte("parent"), Signature: mon.FixedSig}
+		payload := []byte("payload")
+		var s1 cose.Sign1Message
+		var sg cose.Signature
+		var cs cose.Countersignature
+		var sm cose.SignMessage
+		sign := func(spy cose.Signer) error {
+			switch kind {
+			case "Sign1Message":
+				return s1.Sign(gen.Entropy, nil, spy)
+			case "UntaggedSign1Message":
+				return (*cose.UntaggedSign1Message)(&s1).Sign(gen.Entropy, nil, spy)
+			case "Signature":
+				return sg.Sign(gen.Entropy, spy, []byte{0x40}, payload, nil)
+			case "Countersignature":
+				return cs.Sign(gen.Entropy, spy, parent, nil)
+			}
+			return sm.Sign(gen.Entropy, nil, spy)
+		}
+		var hp *cose.Headers
+		var sigp *[]byte
+		switch kind {
+		case "Sign1Message", "UntaggedSign1Message":
+			s1 = cose.Sign1Message{Headers: h, Payload: payload}
+			hp, sigp = &s1.Headers, &s1.Signature
+		case "Signature":
+			sg = cose.Signature{Headers: h}
+			hp, sigp = &sg.Headers, &sg.Signature
+		case "Countersignature":
+			cs = cose.Countersignature{Headers: h}
+			hp, sigp = &cs.Headers, &cs.Signature
+		default:
+			sm = cose.SignMessage{Headers: cose.Headers{Protected: cose.ProtectedHeader{}, Unprotected: cose.UnprotectedHeader{}}, Payload: payload, Signatures: []*cose.Signature{{Headers: h}}}
+			hp, sigp = &sm.Signatures[0].Headers, &sm.Signatures[0].Signature
+		}
+		in := map[string]any{"case": i, "family": "sign, edit, sign again", "kind": kind}
+		spy1, spy2 := &mon.SpySigner{Alg: alg}, &mon.SpySigner{Alg: alg, Out: []byte("second-signature")}
+		var e1, e2 error
+		var out []byte
+		var merr error
+		if guard(rec, kind+" signed twice", in, func() {
+			e1 = sign(spy1)
+			// the application changes its mind about a header and signs again
+			hp.Protected[int64(70001)] = []byte("edited")
+			*sigp = nil
+			e2 = sign(spy2)
+			switch kind {
+			case "Sign1Message":
+				out, merr = s1.MarshalCBOR()
+			case "UntaggedSign1Message":
+				out, merr = (*cose.UntaggedSign1Message)(&s1).MarshalCBOR()
+			case "Signature":
+				out, merr = sg.MarshalCBOR()
+			case "Countersignature":
+				out, merr = cs.MarshalCBOR()
+			default:
+				out, merr = sm.MarshalCBOR()
+			}
+		}) {
+			continue
+		}
+		rec.Eval(1)
+		rec.Event("signed-edited-signed-again")
+		rec.Class("resign/" + kind)
+		if e1 != nil || e2 != nil || merr != nil || spy2.Calls != 1 {
+			rec.Violate("closure", "resign/"+kind, fmt.Sprintf("sign=%v, sign again=%v (calls %d), marshal=%v", e1, e2, spy2.Calls, merr), in)
+			continue
+		}
+		wantProt, perr := refcose.ProtectedContent(map[any]any(hp.Protected), gen.Custom)
+		if perr != nil {
+			continue
+		}
+		idx := map[string]int{"Sign1Message": 1, "UntaggedSign1Message": 1, "Signature": 2, "Countersignature": 2, "SignMessage": 2}[kind]
+		tbs, terr := refcbor.Parse(spy2.Last())
+		if terr != nil || tbs.Major != refcbor.Array || len(tbs.Kids) <= idx || !bytes.Equal(tbs.Kids[idx].Str, wantProt) {
+			rec.Violate("signed-not-emitted", "resign/"+kind+"/signed", "the second signing call did not sign the edited protected header", in)
+			continue
+		}
+		found := false
+		for _, pc := range protectedContents(func() *Node { n, _ := refcbor.Parse(out); return n }()) {
+			if bytes.Equal(pc, wantProt) {
+				found = true
+			}
+		}
+		if !found {
+			rec.Violate("signed-not-emitted", "resign/"+kind+"/emitted", "the emitted object does not carry the protected header that was signed last: "+hexs(out), in)
+		}
+	}
+	rec.Require("signed-edited-signed-again", 100)
 	rec.Require("signed-vs-emitted", int64(n/2))
 	rec.RequireClasses(60)
 }
